@@ -32,6 +32,9 @@ func runExtras(e *Engine, o checkOpts) []*extraResult {
 	switch o.prop {
 	case "C17":
 		out = append(out, splitLemmaCheck(o), regexTranslatorCheck(e, o))
+	case "C03", "C04":
+		out = append(out, boundedGoTest(o, "prefix-match", "bounded/prefixmatch_bounded_test.go", ".", "TestGvcBoundedPrefixMatch", 5, 7,
+			"Prefix.Match (contract `nobody`: strings.Split/TrimLeft/Join outside solver reach) against the wording of C03 for every key and prefix over {a,b,/}, delimiter absent, '/' or 'b'; ties the uninterpreted mOK/mCommon/mPart of the listing contracts to 'starts with the prefix' / 'segment up to and including the first delimiter'"))
 	case "C16":
 		out = append(out, boundedGoTest(o, "routebase-split", "bounded/routebase_bounded_test.go", ".", "TestGvcBoundedRouteBase", 7, 9,
 			"slash normalisation in routeBase (strings.Trim + SplitN): bucket/key addressed by every path over {a,/,.} equals the specification and is stable under extra leading/trailing slashes"))
